@@ -30,7 +30,7 @@ CASE_TIMEOUT = 900
 def gen_cases(tier, seed):
     i = 0
     sizes = [[0], [1], [5], [200], [1, 0], [5, 5], [5, 1, 200], [3, 20000]] if tier == 'quick' else \
-        [[0], [1], [5], [200], [1, 0], [0, 1], [5, 5], [5, 1, 200], [200, 200], [0, 0, 0], [1, 1, 1], [3, 150000]]
+        [[0], [1], [5], [200], [1, 0], [0, 1], [5, 5], [5, 1, 200], [200, 200], [0, 0, 0], [1, 1, 1], [3, 60000]]
     for sz in sizes:
         for fmt in ('csv', 'json'):
             for pretty in (True, False):
@@ -161,7 +161,7 @@ def run_case(case):
     if big:
         # large-last-resource configuration: decided mainly by the online / sampled invariant of the recording pass;
         # kills only around the copies and the descriptor (the last events)
-        ks = ks[-(45 if case['tier'] == 'quick' else 300):]
+        ks = ks[-(45 if case['tier'] == 'quick' else 90):]
         sampled = True
     cov['crash_event_kind']['__sampled__' if sampled else '__all__'] = 1
 
